@@ -1,6 +1,7 @@
 import GbVerif.Model.Cache
 import GbVerif.Model.X86Wf
 import GbVerif.Model.JitIp
+import GbVerif.Model.JitSp
 import GbVerif.Proofs.Enum
 /-!
 C01 — translated blocks have the same architectural effect as the interpreter.
@@ -68,5 +69,33 @@ theorem ip_advance_cb : ∀ b1, b1 < 2^8 → ipOkCb b1 = true :=
 /-- non-vacuity: `LD A,n` is such an instruction and advances by 2; `JR NZ` ends its block and is exempt -/
 example : Gen.isBlockEnd (Gen.decode 0x3e 0 0).1 = false ∧ JitIp.jitIp (Gen.emitOp 0x3e) = some [2] ∧
     Gen.isBlockEnd (Gen.decode 0x20 0 0).1 = true := by decide +kernel
+
+
+/-! ### stack-pointer bookkeeping of translated code -/
+
+/-- for one unprefixed encoding: the set of net changes (mod 2^16) of r12, the guest SP, over all paths through the
+emitted code equals the set of changes the interpreter model makes to SP over both flag outcomes; the only encodings
+whose code writes SP in a way the path analysis does not follow are the three that load it with a computed value
+(LD SP,nn / ADD SP,e / LD SP,HL) -/
+def spOkOp (b0 : Nat) : Bool :=
+  let t := Gen.emitOp b0
+  if t.isEmpty then true else
+  let (op, len, _) := Gen.decode b0 0 0
+  match JitSp.jitSp t with
+  | some a => some a == JitSp.interpSp op len
+  | none => b0 == 0x31 || b0 == 0xe8 || b0 == 0xf9
+
+/-- **sp_delta**: PUSH, CALL (taken), RST move SP by −2, POP, RET (taken), RETI by +2, INC/DEC SP by ±1, not-taken CALL / RET
+and every other instruction by 0 — in translated code on every path, exactly as in the interpreter, for every state
+(the change does not depend on the state); r12 is written in no other way -/
+theorem sp_delta_unprefixed : ∀ b0, b0 < 2^8 → spOkOp b0 = true :=
+  forall_lt_of_allRange spOkOp 8 (by decide +kernel)
+
+/-- no CB-prefixed instruction touches SP -/
+theorem sp_delta_cb : ∀ b1, b1 < 2^8 → (JitSp.jitSp (Gen.emitCb b1) == some [0]) = true :=
+  forall_lt_of_allRange (fun b1 => JitSp.jitSp (Gen.emitCb b1) == some [0]) 8 (by decide +kernel)
+
+/-- non-vacuity: CALL NZ has the two outcomes 0 and −2, POP BC has +2 -/
+example : JitSp.jitSp (Gen.emitOp 0xc4) = some [0, 65534] ∧ JitSp.jitSp (Gen.emitOp 0xc1) = some [2] := by decide +kernel
 
 end GbVerif.C01
